@@ -131,6 +131,11 @@ def run(c, facts, tier):
         )
     elif len(fed_t) > 1:
         okf, detf = False, "the leading list is traversed %d times" % len(fed_t)
+    from .. import innerval
+
+    EV, _why = innerval.cached(facts, b, an)
+    if EV is not None:
+        okf, detf = EV["ok_options"], innerval.how(EV) + (" — " + EV["detail"] if not EV["ok_options"] else "")
     c.ob("C13.leading", inner, "leading options are registered in input order", okf, detf)
     from .. import mir as _mir
 
@@ -153,7 +158,14 @@ def run(c, facts, tier):
         return o["v"] == "parsed" and peg.Grammar(b).open(o["ir"]) is not None and o["ir"]["t"] == "ref" and o["ir"]["fn"] == lexk
 
     trav = [t for t in S.traversals() if from_lex(t["over"]) and t["mode"] in ("map", "mutate")]
-    if len(trav) != 1:
+    if EV is not None:
+        okt = EV["ok_tokens"]
+        dt = innerval.how(EV) + (" — " + EV["detail"] if not (okt and EV["ok_options"] and EV["ok_tree"]) else "")
+        c.ob("C13.misplaced", inner, "tokens are mapped in order", okt, dt)
+        c.ob("C13.misplaced", inner, "Token::Global(v) → update(&v); Token::Test(Test::True)", okt and EV["ok_options"], dt, witness="-name x -threads 3" if not (okt and EV["ok_options"]) else None)
+        c.ob("C13.misplaced", inner, "every other token is passed through unchanged", okt, dt)
+        c.ob("C13.misplaced", inner, "the precedence parser receives the mapped tokens", okt and EV["ok_tree"], dt)
+    elif len(trav) != 1:
         c.ob("C13.misplaced", inner, "token map handling Token::Global", None if not trav else False, "found %d element-wise rewrites of the token list" % len(trav))
     else:
         t = trav[0]
@@ -219,13 +231,16 @@ def run(c, facts, tier):
                         seen_ok.add(id(n))
     recv_same = opts is not None and all(id(n) in seen_ok for n in upd_calls)
     init_ok = opts is not None and opts["v"] == "fresh" and opts.get("ty") == "RunOptions" and opts.get("ctor") in ("default", "new")
-    c.ob(
-        "C13.last-wins",
-        inner,
-        "one options object: created from the defaults, updated in input order, returned",
-        bool(upd_calls) and recv_same and init_ok,
-        "%d update() calls, all on the returned object: %s; it is initialised by %s" % (len(upd_calls), recv_same, opts.get("src") if opts else None),
-    )
+    if EV is not None:
+        c.ob("C13.last-wins", inner, "one options object: created from the defaults, updated in input order, returned", EV["ok_options"], innerval.how(EV) + (" — " + EV["detail"] if not EV["ok_options"] else ""))
+    else:
+        c.ob(
+            "C13.last-wins",
+            inner,
+            "one options object: created from the defaults, updated in input order, returned",
+            bool(upd_calls) and recv_same and init_ok,
+            "%d update() calls, all on the returned object: %s; it is initialised by %s" % (len(upd_calls), recv_same, opts.get("src") if opts else None),
+        )
     dfn = facts.fns.get("<RunOptions as Default>::default")
     okd, detd = None, "Default impl for RunOptions not found (derived?)"
     if dfn is not None:
